@@ -29,6 +29,7 @@ func c08lookup(attrs akashtypes.Attributes, key string) (string, bool) {
 const (
 	c08label = "C08 an auditor's record holds exactly the attributes it currently signs (a withdrawn attestation no longer counts)"
 	c06label = "C06 an attestation message touches only the record of the auditor that signed it"
+	c16label = "C16 creating, updating or deleting an attestation emits exactly the corresponding typed event"
 )
 
 func c08audit(nOld int, del bool) {
@@ -68,6 +69,28 @@ func c08audit(nOld int, del bool) {
 			verif_Assume(upd[0].Key != upd[1].Key)
 		}
 		err = k.CreateOrUpdateProviderAttributes(ctx, acting, upd)
+	}
+	// C16: a successful create/update (delete) of an attestation emits exactly the typed
+	// trusted-auditor-created (-deleted) event naming owner and auditor; a failed one emits nothing
+	{
+		evs := ctx.EventManager().Events()
+		want := types.NewEventTrustedAuditorCreated(acting.Owner, acting.Auditor).ToSDKEvent()
+		if del {
+			want = types.NewEventTrustedAuditorDeleted(acting.Owner, acting.Auditor).ToSDKEvent()
+		}
+		if err != nil {
+			verif_Assert(len(evs) == 0, c16label)
+		} else {
+			verif_Reach("event-checked")
+			verif_Assert(len(evs) == 1, c16label)
+			if len(evs) == 1 {
+				same := evs[0].Type == want.Type && len(evs[0].Attributes) == len(want.Attributes)
+				for i := 0; same && i < len(want.Attributes); i++ {
+					same = string(evs[0].Attributes[i].Key) == string(want.Attributes[i].Key) && string(evs[0].Attributes[i].Value) == string(want.Attributes[i].Value)
+				}
+				verif_Assert(same, c16label)
+			}
+		}
 	}
 	got, found := k.GetProviderByAuditor(ctx, acting)
 	if err != nil {
